@@ -52,6 +52,43 @@ DEP5_LINKS = {
 # the snapshot key of the directory entry `.reuse/dep5` where `.reuse` is itself a link (the walk of the snapshot does not follow links)
 DEP5_ENTRY = {"dir-in": "packaging/reuse/dep5", "dir-in-link": "packaging/reuse/dep5", "dir-out": "../sentinel/reuse-dir/dep5",
               "dir-out-link": "../sentinel/reuse-dir/dep5"}
+# tree flavour "odd": file names that are not valid UTF-8 (surrogate-escaped here, raw bytes on disk: Latin-1, a lone continuation byte,
+# a truncated sequence, an overlong form, an encoded surrogate, 0xff 0xfe) and valid but unusual ones (NFC / NFD spellings of the same
+# text, stacked combining characters, a character outside the BMP, a space).  tree["odd"] = {"cov": [...], "ign": [...], "igndir": [...],
+# "twin": None | "nfc" | "nfd"}: NAME.py at the top and in oddd/ (covered), NAME.gen.py at the top and in oddd/ (ignored through
+# `*.gen.py`), oddd/NAME.tmpdir/in.py (directory ignored through `*.tmpdir/`), and the twins oddd/twin-caf\u00e9.c / oddd/twin-cafe\u0301.c
+# of which .git/info/exclude names exactly one, byte for byte.  oddd/keep.py is tracked.
+ODD_NAMES = {
+    "latin1": "r\udce9sum\udce9", "cont": "x\udc80y", "trunc": "caf\udcc3", "overlong": "o\udcc0\udcaf", "surr": "s\udced\udca0\udc80",
+    "ff": "\udcff\udcfe", "nfc": "caf\u00e9", "nfd": "cafe\u0301", "comb": "a\u0308\u0323", "astral": "\U0001f600", "space": "na\u00efve name",
+}
+ODD_UTF8 = ("nfc", "nfd", "comb", "astral", "space")
+TWINS = {"nfc": "oddd/twin-caf\u00e9.c", "nfd": "oddd/twin-cafe\u0301.c"}
+
+
+def odd_files(case):
+    """-> (covered odd files, ignored odd files) of the tree, {} {} without the flavour"""
+    o = case["tree"].get("odd")
+    if not o:
+        return {}, {}
+    cov, ign = {"oddd/keep.py": "k = 1\n"}, {}
+    for k in o.get("cov", []):
+        cov[ODD_NAMES[k] + ".py"] = "c = 1\n"
+        cov["oddd/" + ODD_NAMES[k] + ".py"] = "c = 2\n"
+    for k in o.get("ign", []):
+        ign[ODD_NAMES[k] + ".gen.py"] = "g = 1\n"
+        ign["oddd/" + ODD_NAMES[k] + ".gen.py"] = "g = 2\n"
+    for k in o.get("igndir", []):
+        ign["oddd/" + ODD_NAMES[k] + ".tmpdir/in.py"] = "t = 1\n"
+    if o.get("twin"):
+        for k, n in TWINS.items():
+            (ign if k == o["twin"] else cov)[n] = "int twin;\n"
+    if not case["tree"].get("git"):
+        cov.update(ign)
+        ign = {}
+    return cov, ign
+
+
 # tree flavour "sub": projects below the top of the repository (`reuse --root pkg/app`, `--root src`, `--root pkg`), with ignore rules
 # at the top (.gitignore: *_local.py, build/, *.ign.c), below (pkg/app/.gitignore: secret.c, /tmp_*/) and in .git/info/exclude (*.tmp.c)
 SUB_ROOTS = ["pkg/app", "src", "pkg"]
@@ -71,7 +108,7 @@ SUB_IGNORED = ("pkg/app/settings_local.py", "pkg/app/build/generated.py", "pkg/a
 def ignored_of(case):
     if not case["tree"].get("git"):
         return set()
-    return set(IGNORED) | (set(SUB_IGNORED) if case["tree"].get("sub") else set())
+    return set(IGNORED) | (set(SUB_IGNORED) if case["tree"].get("sub") else set()) | set(odd_files(case)[1])
 # (single, multi, terminator, uncommentable) by extension — written down from the documentation
 STYLES = {".c": (0, 1, "*/", 0), ".cpp": (1, 1, "*/", 0), ".py": (1, 0, "", 0), ".html": (0, 1, "-->", 0), ".csv": (0, 0, "", 1),
           ".png": (0, 0, "", 1), ".license": (0, 0, "", 0), ".gitignore": (1, 0, "", 0), ".toml": (1, 0, "", 0)}
@@ -96,6 +133,12 @@ def tree_of(case):
     if t.get("sub"):
         files.update(SUB_FILES)
         files[".gitignore"] = "ign.c\nbuild/\n*_local.py\n*.ign.c\n"
+    if t.get("odd"):
+        oc, oi = odd_files(case)
+        files.update(oc)
+        files.update(oi)
+        if t.get("git"):
+            files[".gitignore"] += "*.gen.py\n*.tmpdir/\n"
     if t.get("tl") in TOML_LINKS:
         files["conf/reuse.toml"] = TOML
         links["REUSE.toml"] = TOML_LINKS[t["tl"]]
@@ -174,6 +217,20 @@ def materialise(top, case):
             r = subprocess.run(["git", "check-ignore", "--no-index", "--"] + sorted(files), cwd=proj, capture_output=True, text=True)
             if set(r.stdout.split()) != set(IGNORED) | set(SUB_IGNORED):
                 raise RuntimeError("generator precondition: git check-ignore says %s" % sorted(set(r.stdout.split()) ^ (set(IGNORED) | set(SUB_IGNORED))))
+        if case["tree"].get("odd"):
+            with open(os.path.join(proj, ".git", "info", "exclude"), "ab") as fp:
+                if case["tree"]["odd"].get("twin"):
+                    fp.write(os.fsencode(TWINS[case["tree"]["odd"]["twin"]]) + b"\n")
+            subprocess.run(["git", "add", "--", "oddd/keep.py"], cwd=proj, check=True, capture_output=True)
+            # generator precondition: Git itself calls exactly the listed odd files ignored (names travel as bytes)
+            oc, oi = odd_files(case)
+            r = subprocess.run(["git", "check-ignore", "--no-index", "-z", "--stdin"], cwd=proj, capture_output=True,
+                               input=b"".join(os.fsencode(n) + b"\0" for n in sorted(list(oc) + list(oi))))
+            said = {os.fsdecode(x) for x in r.stdout.split(b"\0") if x}
+            if said != set(oi):
+                raise RuntimeError("generator precondition: git check-ignore differs on %r" % sorted(said ^ set(oi)))
+        if case["tree"].get("sub"):
+            pass
         elif case["tree"].get("tracked"):
             # tracked files whose time stamps are then changed: `git status` would like to refresh the index
             subprocess.run(["git", "add", "a.c", "b.py", "src", "ro.c", "l_in.c"], cwd=proj, check=True, capture_output=True)
@@ -394,8 +451,42 @@ class _Stub:
         return False
 
 
+def gen_odd(rng, git):
+    """covered files only get the valid-UTF-8 kinds: the tool prints the names of the files it handles, and the strict UTF-8 stream
+    of the in-process runner cannot take the others (a matter of C16, not of what is written where)"""
+    kinds = sorted(ODD_NAMES) if git else list(ODD_UTF8)
+    return {"cov": rng.sample(ODD_UTF8, rng.randint(0, 3)), "ign": rng.sample(kinds, rng.randint(1, 3)),
+            "igndir": rng.sample(kinds, rng.randint(0, 2)), "twin": rng.choice([None, "nfc", "nfd"])}
+
+
+def printable(name):
+    try:
+        name.encode("utf-8")
+        return True
+    except UnicodeEncodeError:
+        return False
+
+
+def gen_odd_cmd(rng, case):
+    oc, oi = odd_files(case)
+    c = {"cmd": "annotate", "dot": rng.choice([None, None, "force", "fallback", "skip"])}
+    if rng.random() < 0.6:
+        c["recursive"] = True
+        c["named"] = [rng.choice(["oddd", "oddd", ".", "src"])] if c["dot"] else ["oddd"]
+        if rng.random() < 0.3:
+            c["named"] += rng.sample(sorted(oc), min(len(oc), rng.randint(1, 2)))
+    else:
+        # named one by one: covered ones, and (a file that is named is annotated, ignored or not) now and then an ignored one
+        # (only names the tool can print: it reports every file it annotated)
+        pool = sorted(oc) * 2 + [n for n in sorted(oi) if printable(n)] + ["a.c", "b.py"]
+        c["named"] = list(dict.fromkeys(rng.sample(pool, rng.randint(1, 4))))
+    return c
+
+
 def gen_cmd(rng, case, modelled=True):
     files, links = tree_of(case)
+    if case["tree"].get("odd") and rng.random() < 0.5:
+        return gen_odd_cmd(rng, case)
     r = rng.random()
     if r < 0.30:
         return {"cmd": rng.choice(sorted(READ_ONLY))}
@@ -472,6 +563,8 @@ class CommandStream(Stream):
              "lr": rng.choice([None, None, None, "file", "link", "dangling"]) if not self.modelled else None}
         if t["lic"] == "dep5" and not self.modelled and rng.random() < 0.4:
             t["dl"] = rng.choice(sorted(DEP5_LINKS))    # .reuse/dep5 (or .reuse) is a symbolic link: the model's convert-dep5 reads a regular file only
+        if not self.modelled and rng.random() < 0.2:
+            t["odd"] = gen_odd(rng, git)
         if t["lic"] != "toml" and rng.random() < 0.2:
             t["tl"] = rng.choice(sorted(TOML_LINKS) + ["dir"] + (["ignored-file"] if git else []))   # REUSE.toml is there, but not as a file the project reads
         return t
@@ -618,12 +711,12 @@ class CommandStream(Stream):
     # -- oracle ---------------------------------------------------------------
     def oracle(self, case, impl_out):
         snaps, gits, exits, err = self.side[json.dumps(case, sort_keys=True)]
-        if err:
-            return "traceback: " + err
         for i, cmd in enumerate(case["cmds"]):
             why = judge(case, cmd, snaps[i], snaps[i + 1], gits[i], gits[i + 1])
             if why:
-                return why
+                return why.encode("utf-8", "backslashreplace").decode("utf-8")   # names that are not UTF-8 stay printable
+        if err:
+            return "traceback: " + err
         return None
 
     def classify(self, case, failure):
@@ -675,6 +768,45 @@ class UnmodelledStream(CommandStream):
                     if out:
                         cmd["out"] = out
                     yield {"tree": {"git": False, "lic": "none", "sibs": [], "sl": False, "lr": lr}, "terms": [], "cmds": [cmd]}
+
+
+class OddNameStream(CommandStream):
+    name = "oddnames"
+    modelled = False
+    rule = ("file names that are not valid UTF-8 (Latin-1 bytes, a lone continuation byte, a truncated sequence, an overlong form, an "
+            "encoded surrogate, 0xff 0xfe) and unusual valid ones (NFC and NFD spellings, stacked combining characters, a character "
+            "outside the BMP, a blank): Git-ignored files and directories carry any of them (through the patterns *.gen.py, *.tmpdir/ "
+            "and through an exact byte-for-byte name in .git/info/exclude that tells an NFC-named file from its NFD-named twin), "
+            "covered files the valid ones; `git check-ignore` confirms the generator's list; every kind alone and seeded mixtures, "
+            "with `annotate --recursive` over the directory / the project (each .license option), annotate of named files, lint, "
+            "spdx, convert-dep5, download, singly and in sequences; without Git the same names are all covered; same snapshot "
+            "oracle: an ignored file is never written, whatever its name; oracle only")
+
+    def cases(self, tier, rng):
+        thorough = tier == "thorough"
+        rec = {"cmd": "annotate", "dot": None, "recursive": True, "named": ["oddd"]}
+        for k in sorted(ODD_NAMES):
+            for shape in (("ign",), ("igndir",)) + ((("ign", "igndir"),) if thorough else ()):
+                odd = {"cov": [x for x in ("nfd", "comb") if x != k], "ign": [], "igndir": [], "twin": None}
+                for sh in shape:
+                    odd[sh] = [k]
+                tree = {"git": True, "tracked": rng.random() < 0.5, "lic": "none", "sibs": [], "sl": False, "odd": odd}
+                yield {"tree": tree, "terms": [], "cmds": [rec]}
+                if thorough:
+                    yield {"tree": tree, "terms": [], "cmds": [{"cmd": "lint"}, dict(rec, dot="fallback", named=["."]), {"cmd": "spdx"}]}
+        for twin in ("nfc", "nfd"):
+            tree = {"git": True, "tracked": False, "lic": "none", "sibs": [], "sl": False, "odd": {"cov": ["astral"], "ign": ["space"], "igndir": [], "twin": twin}}
+            yield {"tree": tree, "terms": [], "cmds": [rec]}
+            yield {"tree": tree, "terms": [], "cmds": [{"cmd": "annotate", "dot": None, "named": [TWINS["nfc"], TWINS["nfd"]]}]}
+        for _ in range(160 if thorough else 14):
+            git = rng.random() < 0.8
+            tree = {"git": git, "tracked": git and rng.random() < 0.5, "lic": rng.choice(["none", "none", "dep5", "toml"]), "sibs": [], "sl": False,
+                    "odd": gen_odd(rng, git)}
+            case = {"tree": tree, "terms": rng.choice([[], [], ["*/"]])}
+            case["cmds"] = [gen_cmd(rng, case, False) for _ in range(rng.randint(1, 3))]
+            if not any(c.get("recursive") for c in case["cmds"]):
+                case["cmds"].append(dict(rec, dot=rng.choice([None, "skip"])))
+            yield case
 
 
 class SubRootStream(CommandStream):
@@ -839,7 +971,7 @@ def log_path(top):
 
 PROPERTY = Property(
     pid="C15",
-    streams=[CommandStream(), UnmodelledStream(), SubRootStream(), StraceStream()],
+    streams=[CommandStream(), UnmodelledStream(), OddNameStream(), SubRootStream(), StraceStream()],
     assumptions=[
         "the model's file system has no write-through: a write at path p changes p only. That no written path is a symbolic link "
         "(or lies below a linked directory) is checked on the real tree by the snapshot of the outside sentinel and by the "
